@@ -11,7 +11,10 @@ for f in sorted(glob.glob(os.path.join(root, "*", "meta.json"))):
     rows.append((m["id"], m["property"], m.get("round", 1), m["change"], m["needs_to_manifest"],
                  "yes" if ok else ("?" if ok is None else "NO"),
                  ("%s -> exit %s" % (det.get("check", "?"), det.get("exit", "?"))) if det else "not yet run",
-                 "first pass: missed" if m.get("history") else "first pass: caught"))
+                 ("first pass: missed" if m.get("history") else "first pass: caught")
+                 + ("; overtaken by a later repair (kept with its earlier result)" if m.get("superseded_note") else "")
+                 + ("; NOT flagged by decision (see DESIGN §3 C17)" if m.get("disposition") else "")
+                 + ("; patch re-based" if m.get("rebased") else "")))
 with open(os.path.join(root, "INDEX.md"), "w") as fh:
     fh.write("# Seeded breaking changes\n\nEach directory holds `patch.diff`, `demo_test.go`, `meta.json` (and the writing agent's README). None of these was ever applied to /repo; "
              "`scripts/seeded_run.sh` re-confirms them in scratch worktrees and records which check catches them.\n\n")
@@ -20,6 +23,9 @@ with open(os.path.join(root, "INDEX.md"), "w") as fh:
         fh.write("| %s | %s | %s | %s | %s | %s | %s |\n" % (r[0], r[2], r[3].replace("|", "\\|"), r[4].replace("|", "\\|"), r[5], r[6], r[7]))
     n = len(rows)
     caught = sum(1 for r in rows if "exit 1" in r[6])
-    fh.write("\n%d changes, %d caught by the quick check of their property (exit 1), %d missed by the first version of the check and caught after it was strengthened.\n" % (
-        n, caught, sum(1 for r in rows if "missed" in r[7])))
+    over = sum(1 for r in rows if "overtaken" in r[7])
+    undecided = sum(1 for r in rows if "NOT flagged" in r[7])
+    fh.write("\n%d changes, %d caught by the quick check of their property (exit 1) when last run, %d missed by the first version of the check and caught after it was strengthened, "
+             "%d overtaken by later repairs of /repo (patch no longer applies, suite fails with it, or the change is neutralised), %d deliberately not flagged.\n" % (
+        n, caught, sum(1 for r in rows if "missed" in r[7]), over, undecided))
 print("seeded/INDEX.md written:", len(rows), "entries")
